@@ -152,33 +152,11 @@ def r01_3(ctx):
                 r.violate(b.name, "store:%s" % f, b.where(bi),
                           "%s overwrites %s without looking at the association state: a duplicated or late %s resets an established association" % (
                               fn, f, "INIT" if fn == "handle_init" else "INIT-ACK"))
-        if fn == "handle_init_ack":
-            # 'not established' is not enough for the INIT-ACK: between COOKIE-ECHO and COOKIE-ACK the peer is already up
-            # and its DATA is taken (handle_packet does not look at the state). A duplicated INIT-ACK in that window
-            # would rewind the receive point behind DATA that has been acknowledged - it is never sent again, and
-            # everything after it waits in the reorder buffer for ever. RFC 4960 5.2.3: INIT-ACK is taken in COOKIE-WAIT
-            # only; here: while the T1 timer still carries the INIT.
-            ct_init = None
-            si = ctx.body(S + "send_init::{closure#0}")
-            for _bi, t, _p in si.calls():
-                for x in mir.walk(si.term_call(t)):
-                    if x[0] == "item" and x[1].endswith("::CT_INIT") and isinstance(x[2], int):
-                        ct_init = x[2]
-            if ct_init is None:
-                raise core.CheckerError("R01.3: value of CT_INIT not found (send_init no longer arms T1 with it?)")
-            def cookie_wait(term, meaning, *_):
-                return (meaning == ct_init and not isinstance(meaning, bool) and mir.has_field(term, "t1_chunk")
-                        and term[0] == "field")
-            gw = core.lift_guards(b, core.guard_edges(b, cookie_wait))
-            for bi, f in sites:
-                if f != "cumulative_tsn_ack":
-                    continue
-                if gw and core.k1(b, [bi], gw)[bi] is None:
-                    r.ok({"site": b.where(bi), "field": f, "cut_by": "T1 still carries the INIT (COOKIE-WAIT)"})
-                else:
-                    r.violate(b.name, "init-ack:outside-cookie-wait", b.where(bi),
-                              "handle_init_ack rewinds the receive point for any INIT-ACK that arrives before COOKIE-ACK: a duplicated INIT-ACK after "
-                              "the peer's first DATA moves cumulative_tsn_ack behind acknowledged DATA and the channel stops delivering")
+        # (Retired in round 9: a sub-check here demanded that handle_init_ack act in COOKIE-WAIT only - T1 still carrying the
+        # INIT. It answered seed C01r7: a duplicated INIT-ACK in COOKIE-ECHOED rewound the receive point behind DATA that had
+        # already been taken. Since repair bc09ffa no DATA is taken while T1 runs, so there is nothing to rewind behind: an
+        # INIT-ACK handled again in COOKIE-ECHOED stores the same values and repeats the COOKIE ECHO. The sub-check had come
+        # to demand more than the property.)
     # a copy of the INIT that is being answered (same initiate tag, association not up yet) must get the SAME INIT-ACK:
     # the values this side chooses - its verification tag and its initial TSN - are fresh random numbers only on the
     # edge where the INIT is not such a copy; otherwise they are the stored ones
